@@ -161,6 +161,8 @@ struct Open {
     /// static snapshot taken here (outermost static call)
     static_root: bool,
     got_interp: bool,
+    /// address a create frame is about to create (warmed on the caller's side)
+    created_addr: Option<Address>,
 }
 
 #[derive(Default, Clone)]
@@ -355,7 +357,15 @@ impl Mon {
             }
         }
         let snap = if self.cfg.snapshots { Some(project(&ctx.journaled_state)) } else { None };
-        self.open.push(Open { kind, depth, snap, static_root, got_interp: false });
+        let created_addr = match &kind {
+            Kind::Call(_) => None,
+            Kind::Create(c) => {
+                let nonce = ctx.journaled_state.state.get(&c.caller).map(|a| a.info.nonce).unwrap_or(0);
+                Some(c.created_address(nonce))
+            }
+            Kind::EofCreate(c) => c.kind.created_address().copied(),
+        };
+        self.open.push(Open { kind, depth, snap, static_root, got_interp: false, created_addr });
     }
 
     fn on_close<DB: Database>(&mut self, ctx: &mut EvmContext<DB>, kind: Kind, ok: bool, result: InstructionResult) {
@@ -423,6 +433,11 @@ impl Mon {
                 // they are not in `before`, so "loaded since" handles them: allow warm for any address
                 // that the frame-opening code loads before its checkpoint
                 let mut ignore = ignore;
+                // EIP-2929 / EIP-7620: the address being created joins accessed_addresses on the
+                // caller's side and stays there when the creation fails
+                if let Some(a) = top.created_addr {
+                    ignore.push(a);
+                }
                 // transaction-level pre-warmed addresses (precompiles, coinbase, ...) never read as cold
                 ignore.extend(ctx.journaled_state.warm_preloaded_addresses.iter().copied());
                 for (a, x) in after.accounts.iter() {
@@ -467,9 +482,10 @@ fn kind_name(k: &Kind) -> &'static str {
 pub fn result_class(r: InstructionResult) -> &'static str {
     if r.is_ok() {
         "ok"
-    } else if r.is_revert() {
+    } else if r == InstructionResult::Revert {
         "revert"
     } else {
+        // (revm's is_revert() also covers CallTooDeep, OutOfFunds, ...: classify those by name)
         match r {
             InstructionResult::CallTooDeep => "too-deep",
             InstructionResult::OutOfFunds => "out-of-funds",
